@@ -72,6 +72,7 @@ def sub_fidelity(rho: np.ndarray, sigma: np.ndarray) -> float:
     if not is_density(rho) or not is_density(sigma):
         raise ValueError("Sub-fidelity is only defined for density operators.")
 
-    return np.real(
-        np.trace(rho @ sigma) + np.sqrt(2 * (np.trace(rho @ sigma) ** 2 - np.trace(rho @ sigma @ rho @ sigma)))
-    )
+    tr_rho_sigma = np.real(np.trace(rho @ sigma))
+    # The radicand is non-negative in exact arithmetic; rounding can make it -1e-17 (e.g. when a state is pure).
+    radicand = max(2 * (tr_rho_sigma**2 - np.real(np.trace(rho @ sigma @ rho @ sigma))), 0.0)
+    return tr_rho_sigma + np.sqrt(radicand)
